@@ -74,13 +74,18 @@ func (fv *FuncVerifier) evalCall(st *State, env *Env, call *ast.CallExpr) []Term
 	callee := typeutil.Callee(env.info, call)
 	if fn, ok := callee.(*types.Func); ok {
 		name := fn.Name()
-		if strings.HasPrefix(name, "spec_") && fn.Pkg() != nil && strings.HasPrefix(fn.Pkg().Path(), repoModule) {
-			if r, ok := fv.specHelper(st, env, call, name); ok {
+		if isSpecName(name) && fn.Pkg() != nil && strings.HasPrefix(fn.Pkg().Path(), repoModule) {
+			if r, ok := fv.specHelper(st, env, call, strings.ToLower(name[:1])+name[1:]); ok {
 				return []Term{r}
 			}
 			return []Term{fv.specApp(st, env, call, fn)}
 		}
 		sig := fn.Type().(*types.Signature)
+		if t := fv.typeOf(env, fun); t != nil { // instantiated signature of generic functions
+			if s2, ok := t.Underlying().(*types.Signature); ok {
+				sig = s2
+			}
+		}
 		var recv Term
 		hasRecv := false
 		var recvType types.Type
@@ -90,8 +95,12 @@ func (fv *FuncVerifier) evalCall(st *State, env *Env, call *ast.CallExpr) []Term
 				recvType = fv.typeOf(env, sel.X)
 				// promoted methods through embedded fields
 				if len(s.Index()) > 1 {
-					recv = fv.walkFields(st, env, recv, recvType, s.Index()[:len(s.Index())-1], sel.Sel.Pos())
-					recvType = sig.Recv().Type()
+					if fv.prog.ByObj[fn.Origin()] != nil {
+						recv = fv.walkFields(st, env, recv, recvType, s.Index()[:len(s.Index())-1], sel.Sel.Pos())
+						if r := fn.Type().(*types.Signature).Recv(); r != nil {
+							recvType = r.Type()
+						}
+					}
 				}
 				hasRecv = true
 			}
@@ -147,6 +156,8 @@ func (fv *FuncVerifier) evalCall(st *State, env *Env, call *ast.CallExpr) []Term
 	_ = w
 	return res
 }
+
+func isSpecName(n string) bool { return strings.HasPrefix(n, "spec_") || strings.HasPrefix(n, "Spec_") }
 
 func exprString(e ast.Expr) string {
 	switch x := e.(type) {
@@ -372,6 +383,19 @@ func (fv *FuncVerifier) specHelper(st *State, env *Env, call *ast.CallExpr, name
 		a := fv.eval(st, env, call.Args[0])
 		b := fv.eval(st, env.with(a), call.Args[1])
 		return Implies(a, b), true
+	case "spec_eq":
+		a := fv.eval(st, env, call.Args[0])
+		b := fv.eval(st, env, call.Args[1])
+		if a.S == "null" && b.Sort != SRef {
+			a = fv.zero(b.Sort)
+		}
+		if b.S == "null" && a.Sort != SRef {
+			b = fv.zero(a.Sort)
+		}
+		if w.IsSeq(a.Sort) {
+			return w.SeqEq(a, b), true
+		}
+		return App(SBool, "=", a, b), true
 	case "spec_iff":
 		return App(SBool, "=", fv.eval(st, env, call.Args[0]), fv.eval(st, env, call.Args[1])), true
 	case "spec_fresh":
@@ -382,6 +406,28 @@ func (fv *FuncVerifier) specHelper(st *State, env *Env, call *ast.CallExpr, name
 		}
 		al := fv.heapGet(src, "$ghost:alloc", "(Array Ref Bool)")
 		return And(Not(App(SBool, "=", r, Null)), Not(App(SBool, "select", al, r))), true
+	case "spec_existsIn", "spec_forallIn":
+		lo := fv.eval(st, env, call.Args[0])
+		hi := fv.eval(st, env, call.Args[1])
+		lit, ok := ast.Unparen(call.Args[2]).(*ast.FuncLit)
+		if !ok || len(lit.Body.List) != 1 || len(lit.Type.Params.List) != 1 || len(lit.Type.Params.List[0].Names) != 1 {
+			return fv.unsupported(st, env, call, "bounded quantifier body", SBool), true
+		}
+		ret, ok := lit.Body.List[0].(*ast.ReturnStmt)
+		if !ok || len(ret.Results) != 1 {
+			return fv.unsupported(st, env, call, "bounded quantifier body", SBool), true
+		}
+		n := lit.Type.Params.List[0].Names[0]
+		o := env.info.Defs[n]
+		fv.nfresh++
+		bn := fmt.Sprintf("%s$%d", sanitize(n.Name), fv.nfresh)
+		bt := Term{bn, SInt}
+		body := fv.eval(st, env.bind(o, bt), ret.Results[0])
+		rng := And(Le(lo, bt), Lt(bt, hi))
+		if name == "spec_existsIn" {
+			return T(SBool, "(exists ((%s Int)) %s)", bn, And(rng, body).S), true
+		}
+		return T(SBool, "(forall ((%s Int)) %s)", bn, Implies(rng, body).S), true
 	case "spec_all", "spec_any":
 		lit, ok := ast.Unparen(call.Args[0]).(*ast.FuncLit)
 		if !ok || len(lit.Body.List) != 1 {
@@ -979,10 +1025,22 @@ func (fv *FuncVerifier) callUnknown(st *State, env *Env, call *ast.CallExpr, fn 
 	if fn.Pkg() != nil {
 		pkgPath = fn.Pkg().Path()
 	}
-	switch externPolicy(pkgPath, full) {
+	policy := externPolicy(pkgPath, full)
+	// interface methods declared in /repo may carry a contract (pure / assigns / ensures on result)
+	if hasRecv && strings.HasPrefix(pkgPath, repoModule) {
+		if ic := fv.prog.IfaceContracts[ifaceKey(fn)]; ic != nil {
+			fv.calleesUsed[ic.Key+" (interface method, contract ASSUMED for every implementation)"] = true
+			if ic.Has("pure", 0) {
+				policy = "pure"
+			}
+		}
+	}
+	switch policy {
 	case "pure":
 		// deterministic observer: uninterpreted function of receiver and arguments
-		fv.externUsed[full+" (assumed pure, uninterpreted)"] = true
+		if !strings.HasPrefix(pkgPath, repoModule) {
+			fv.externUsed[full+" (assumed pure, uninterpreted)"] = true
+		}
 		all := args
 		if hasRecv {
 			all = append([]Term{recv}, args...)
